@@ -48,6 +48,8 @@ def strategy_case(draw: Any) -> Dict[str, Any]:
         case["asset_opt"] = draw(st.sampled_from(sorted(case["assets"])))
     if draw(st.integers(0, 5)) == 0:
         case["prefix"] = draw(st.sampled_from(["x_", "2024-", "my report "]))
+    if draw(st.integers(0, 5)) == 0:
+        case["generators_field"] = True  # [general] generators = <the country's generators>
     return case
 
 
@@ -89,6 +91,8 @@ def evaluate(case: Dict[str, Any]) -> Outcome:
     out.classes.add(f"country_{case['country']}")
     out.classes.add(f"cell_{option_tuple(case)}")
     out.classes |= cli_common.volume_classes(case)
+    if case.get("generators_field"):
+        out.classes.add("config_with_generators_field")
     if case.get("from") or case.get("to") or case.get("method") not in (None, "fifo") or case.get("schedule") or case.get("lang"):
         out.nontrivial = True
     folder = cli_common.work_dir("c16")
